@@ -659,12 +659,119 @@ fn direct_addresses(sh: &mut Shard) {
     sh.end();
 }
 
+/// Arrays bound to direct addresses (round e): `src AT %I.. : ARRAY[..] OF T` copied element by element to `dst AT %Q..`.
+/// The elements of a bound array occupy consecutive image locations in row-major order (last index fastest), so the
+/// published output bytes must equal the latched input bytes over the array's span, probes of single elements must
+/// equal decode(latched bytes at the element's row-major position), and bytes behind the span stay untouched.
+fn compound_bindings(sh: &mut Shard, rng: &mut Rng) {
+    // (dimensions, element type, element size)
+    let shapes: Vec<(Vec<(i64, i64)>, &str, usize)> = vec![
+        (vec![(0, 5)], "INT", 2),
+        (vec![(1, 4)], "DINT", 4),
+        (vec![(0, 1), (0, 2)], "USINT", 1),
+        (vec![(1, 2), (3, 5)], "INT", 2),
+        (vec![(0, 1), (0, 2), (0, 1)], "INT", 2),
+        (vec![(0, 1), (0, 1), (0, 1)], "DINT", 4),
+        (vec![(1, 2), (1, 2), (1, 3)], "USINT", 1),
+        (vec![(0, 2), (0, 1), (0, 3)], "BYTE", 1),
+        (vec![(0, 1), (0, 1), (0, 1), (0, 1)], "USINT", 1),
+        (vec![(0, 0), (0, 2), (0, 0), (0, 3)], "UINT", 2),
+    ];
+    for (si, (dims, ty, size)) in shapes.iter().enumerate() {
+        if si % sh.args.nshards as usize != sh.args.shard as usize {
+            continue;
+        }
+        let n: usize = dims.iter().map(|(l, u)| (u - l + 1) as usize).product();
+        let span = n * size;
+        let pre = match size {
+            1 => "B",
+            2 => "W",
+            _ => "D",
+        };
+        let dimtext = dims.iter().map(|(l, u)| format!("{l}..{u}")).collect::<Vec<_>>().join(", ");
+        let idx: Vec<String> = (0..dims.len()).map(|k| format!("i{k}")).collect();
+        let mut body = format!("dst[{0}] := src[{0}];\n", idx.join(", "));
+        for k in (0..dims.len()).rev() {
+            body = format!("FOR i{k} := {} TO {} DO\n{body}END_FOR;\n", dims[k].0, dims[k].1);
+        }
+        // probes: first, last and two random elements
+        let mut probes: Vec<Vec<i64>> = vec![dims.iter().map(|d| d.0).collect(), dims.iter().map(|d| d.1).collect()];
+        for _ in 0..2 {
+            probes.push(dims.iter().map(|(l, u)| l + rng.range(0, u - l)).collect());
+        }
+        let mut decls = String::new();
+        for (k, p) in probes.iter().enumerate() {
+            decls += &format!("  p{k} : {ty};\n");
+            body += &format!("p{k} := src[{}];\n", p.iter().map(|x| x.to_string()).collect::<Vec<_>>().join(", "));
+        }
+        let text = format!(
+            "PROGRAM Main\nVAR\n  src AT %I{pre}0 : ARRAY[{dimtext}] OF {ty};\n  dst AT %Q{pre}0 : ARRAY[{dimtext}] OF {ty};\n{}{decls}END_VAR\n{body}END_PROGRAM\n",
+            idx.iter().map(|i| format!("  {i} : DINT;\n")).collect::<String>()
+        );
+        for rep in 0..3 {
+            let input: Vec<u8> = (0..IMG).map(|_| rng.below(256) as u8).collect();
+            let case = json!({"part": "compound", "shape": dimtext, "type": ty, "input": input});
+            if !sh.begin("compound", &case) {
+                continue;
+            }
+            let res: Result<(), (String, String)> = (|| {
+                let mut h = TestHarness::from_source(&text).map_err(|e| ("compile".to_string(), format!("{e}\n{text}")))?;
+                let log = Arc::new(Log::default());
+                let (drv, sc) = ProbeDriver::new(0, log.clone());
+                h.runtime_mut().add_io_driver("probe0", Box::new(drv));
+                h.runtime_mut().io_mut().resize(IMG, IMG, IMG);
+                h.runtime_mut().io_mut().outputs_mut().fill(PATTERN);
+                sc.lock().unwrap().bytes = input.clone();
+                let r = h.cycle();
+                if let Some(e) = r.errors.first() {
+                    return Err(("compound|cycle-error".into(), format!("{e:?}")));
+                }
+                let out = h.runtime().io().outputs().to_vec();
+                if out[..span] != input[..span] {
+                    let at = (0..span).find(|b| out[*b] != input[*b]).unwrap_or(0);
+                    return Err((format!("compound|copy-differs|{}d", dims.len()), format!("ARRAY[{dimtext}] OF {ty} copied from %I to %Q: output byte {at} is {:02x}, the latched input byte is {:02x} (span {span} bytes)", out[at], input[at])));
+                }
+                if out[span..].iter().any(|b| *b != PATTERN) {
+                    return Err((format!("compound|bytes-behind-the-span-changed|{}d", dims.len()), format!("ARRAY[{dimtext}] OF {ty}: output bytes behind byte {span} changed")));
+                }
+                for (k, p) in probes.iter().enumerate() {
+                    // row-major position
+                    let mut pos = 0usize;
+                    for (d, x) in dims.iter().zip(p.iter()) {
+                        pos = pos * (d.1 - d.0 + 1) as usize + (x - d.0) as usize;
+                    }
+                    let mut want = 0u64;
+                    for b in 0..*size {
+                        want |= (input[pos * size + b] as u64) << (8 * b);
+                    }
+                    let got = val_raw(&h, &format!("p{k}"), ty).map_err(|e| ("harness".to_string(), e))?;
+                    if got != want {
+                        return Err((format!("compound|element-latch|{}d", dims.len()), format!("src[{p:?}] of ARRAY[{dimtext}] OF {ty} read {got:#x}, the latched bytes at element position {pos} decode to {want:#x}")));
+                    }
+                }
+                Ok(())
+            })();
+            match res {
+                Ok(()) => {
+                    sh.count("compound_binding_cycles_checked", 1);
+                    sh.nontrivial(&format!("compound:{dimtext}:{ty}:{rep}"));
+                }
+                Err((sig, d)) if sig == "compile" || sig == "harness" => sh.inconclusive(format!("{sig}: {d}")),
+                Err((sig, d)) => sh.violation(sig, d, case.clone()),
+            }
+            sh.end();
+        }
+    }
+}
+
 pub fn run(sh: &mut Shard) {
     if let Some(path) = sh.args.replay.clone() {
         let v: J = serde_json::from_str(&std::fs::read_to_string(path).expect("replay")).expect("json");
         let r = if v.get("replay").is_some() { v["replay"].clone() } else { v };
         let r = if r.get("case").is_some() { r["case"].clone() } else { r };
-        if r.get("part").is_some() {
+        if r["part"].as_str() == Some("compound") {
+            compound_bindings(sh, &mut Rng::new(1));
+        } else if r.get("part").is_some() {
             direct_addresses(sh);
         } else {
             let (b, c) = parse_case(&r);
@@ -676,6 +783,7 @@ pub fn run(sh: &mut Shard) {
     if sh.args.shard == 0 {
         direct_addresses(sh);
     }
+    compound_bindings(sh, &mut rng.fork(0x0c07_a77a));
     let mut i = 0u64;
     while sh.time_left() {
         i += 1;
